@@ -1,6 +1,6 @@
 #!/bin/bash
 cd /verif
-declare -A M=( [C01b]="C01" [C06b]="C06 C11" [C08b]="C08" [C11b]="C11 C08" [C12b]="C12 C13" [C14b]="C14" [C16b]="C16" [C17b]="C17" [C18b]="C18" [C20b]="C20" )
+declare -A M=( [C01b]="C01 C19" [C06b]="C06 C11" [C08b]="C08" [C11b]="C11 C08" [C12b]="C12 C13" [C14b]="C14" [C16b]="C16" [C17b]="C17" [C18b]="C18" [C20b]="C20" )
 for s in C01b C06b C08b C11b C12b C14b C16b C17b C18b C20b; do
   echo "=== $s"
   tools/seeddemo.sh seeded/$s 2>&1 | cut -c1-200
